@@ -44,6 +44,7 @@ RULE = (
 )
 ASSUMPTIONS = [
     "an exception at a line event models 'the statement on that line raised before having any effect'; "
+    "line events of bare `try:` keywords are not statements and are skipped; "
     "a hook whose own call line is the injection point counts as called",
     "the cwd clause is evaluated in the submitting process (cwd of cf pool workers is not observed)",
     "hooks are installed on the task (single tasks) resp. on both nodes (workflows)",
@@ -55,8 +56,18 @@ EXHAUSTIVE_NOTE = "all executed line events of the job path for the listed kinds
 
 QUICK_KINDS = ["python", "python_fail"]
 THOROUGH_KINDS = ["python", "python_fail", "shell", "shell_fail", "wf_debug", "wf_cf"]
-RUN_TIMEOUT = 300.0
+RUN_TIMEOUT = 300.0     # upper bound; see timeout_for()
+DRY_WALL: dict = {}     # kind -> wall seconds of an un-faulted run in this process
 X = 3
+
+
+def timeout_for(kind):
+    """>= 60 s and >= 60x the measured cost of a plain run of the kind (default 120 s when the kind
+    was not measured).  A call that does not return is C18's subject, here it is only counted."""
+    w = DRY_WALL.get(kind)
+    if w is None:
+        return 120.0
+    return min(RUN_TIMEOUT, max(60.0, 60 * w))
 LAST: dict = {}
 
 
@@ -166,6 +177,14 @@ def judge(kind, obs, res, region, fired=None, raising_hook=None, expect_exec=Non
                     LAST["undefined"] = True
                 else:
                     issues.append("job-dir-incomplete-after-body")
+    # the step that is itself the injected failure cannot be expected to have had its effect
+    src = (fired or {}).get("source") or ""
+    if "_info.json" in src and ".unlink(" in src and "info-file-left" in issues:
+        issues.remove("info-file-left")
+        LAST["undefined_cleanup_step"] = True
+    if src.startswith("os.chdir(cwd)") and "cwd-not-restored" in issues:
+        issues.remove("cwd-not-restored")
+        LAST["undefined_cleanup_step"] = True
     detail = dict(region=region, fired=fired, raised=res.get("raised"), leftovers=obs["leftovers"],
                   dirs=obs["dirs"], bodies=obs["bodies"], hooks=obs["hooks"],
                   cwd=[res["cwd_before"], res["cwd_after"]])
@@ -229,9 +248,10 @@ def dry_run(kind, d: Path):
         r["obs"] = observe(cd)
         return r
 
-    r = LF.run_forked(go, RUN_TIMEOUT, d / "dry.json", d / "dry.log")
+    r = LF.run_forked(go, 900.0, d / "dry.json", d / "dry.log")
     if r["status"] != "ok":
         raise HarnessError(f"dry run of kind {kind} failed: {r}")
+    DRY_WALL[kind] = max(DRY_WALL.get(kind, 0.0), r["wall_s"])
     recs = judge(kind, r["result"]["obs"], r["result"], "none")
     return LF.read_trace(d / "mon"), recs, r["result"]
 
@@ -249,8 +269,19 @@ def _source_line(fn_qual, line):
     return ""
 
 
+def non_statement(src: str) -> bool:
+    """`try:` gets a line event of its own (a NOP *in front of* the protected range): an exception
+    'raised by the try keyword' is not something a program can do and is, by construction, outside
+    the try/finally it introduces - such points are not exception points."""
+    return src.rstrip().rstrip(":").strip() in ("try", "else", "finally")
+
+
 def check_fault(case):
     kind, k = case["kind"], case["event_index"]
+    exp = case.get("expect")
+    if exp and non_statement(_source_line(exp[0], exp[1])):
+        LAST["outcome"] = "skipped_non_statement"
+        return []
     d = scratchdir.new("c35")
     try:
         cd = G.CaseDir(d)
@@ -264,9 +295,9 @@ def check_fault(case):
             r["obs"] = observe(cd)
             return r
 
-        r = LF.run_forked(go, RUN_TIMEOUT, d / "run.json", d / "run.log")
+        r = LF.run_forked(go, timeout_for(kind), d / "run.json", d / "run.log")
         if r["status"] == "timeout":
-            LAST["outcome"] = "timeout_inconclusive"
+            LAST["outcome"] = f"timeout_inconclusive:{kind}"
             return []
         if r["status"] != "ok":
             raise HarnessError(f"C35 child ended {r['status']}: {(d / 'run.log').read_text()[-1500:]}")
@@ -280,6 +311,9 @@ def check_fault(case):
         exp = case.get("expect")
         LAST["mismatch"] = bool(exp) and [fired["function"], fired["line"]] != list(exp)
         fired["source"] = _source_line(fired["function"], fired["line"])
+        if non_statement(fired["source"]):
+            LAST.update(outcome="skipped_non_statement", fired=False)
+            return []
         region = region_of(trace, k, run_regions())
         LAST.update(outcome="fired", region=region, where=fired["function"],
                     raised=(res.get("raised") or {}).get("type"))
@@ -303,9 +337,9 @@ def check_hook(case):
             r["obs"] = observe(cd)
             return r
 
-        r = LF.run_forked(go, RUN_TIMEOUT, d / "run.json", d / "run.log")
+        r = LF.run_forked(go, timeout_for(kind), d / "run.json", d / "run.log")
         if r["status"] == "timeout":
-            LAST["outcome"] = "timeout_inconclusive"
+            LAST["outcome"] = f"timeout_inconclusive:{kind}"
             return []
         if r["status"] != "ok":
             raise HarnessError(f"C35 child ended {r['status']}: {(d / 'run.log').read_text()[-1500:]}")
@@ -416,6 +450,7 @@ def check_case(case):
 # ------------------------------------------------------------------------------- exploration
 def run(sh):
     kinds = QUICK_KINDS if sh.quick else THOROUGH_KINDS
+    run_histories(sh, sh.budget(32, 400), "hist1")  # first, so that a short time budget reaches them
     base = scratchdir.new("c35dry")
     cases = []
     for kind in kinds:
@@ -425,15 +460,25 @@ def run(sh):
             sh.handle(dict(kind=kind, mode="raise", event_index=10 ** 6), recs)
         if sh.index == 0:
             sh.count(f"trace_events:{kind}", len(trace))
+        step = 3 if kind == "wf_cf" else 1   # points inside pool workers mostly end in C18's hang
         for row in trace:
-            cases.append(dict(kind=kind, mode="raise", event_index=row[0], expect=[row[2], row[3]]))
+            if non_statement(_source_line(row[2], row[3])):
+                sh.count("skipped_non_statement_points(try:)")
+                continue
+            if row[0] % step == sh.base_seed % step:
+                cases.append(dict(kind=kind, mode="raise", event_index=row[0], expect=[row[2], row[3]]))
     for kind in THOROUGH_KINDS:
+        if sh.quick and kind == "wf_cf":
+            continue  # a node hook raising under cf never returns on this tree (C18): thorough only
         for hook in ("pre_run", "pre_run_task", "post_run_task", "post_run"):
             cases.append(dict(kind=kind, mode="hook", hook=hook))
     scratchdir.rm(base)
     if run_regions() is None:
         sh.note("L1 unavailable: Job.run structure not recognised; regions reported as 'unknown'")
 
+    from props.c12 import interleave
+
+    cases = interleave(cases)
     done_all = True
     for i, case in enumerate(cases):
         if i % sh.n != sh.index:
@@ -452,6 +497,8 @@ def run(sh):
             labels.append("trace_mismatch")
         if info.get("undefined"):
             labels.append("undefined_by_statement:result-after-failed-final-save")
+        if info.get("undefined_cleanup_step"):
+            labels.append("undefined_by_statement:effect-of-the-clean-up-step-that-failed")
         if info.get("aborted_attempt_with_hook"):
             labels.append("undefined_by_statement:hook-called-for-attempt-aborted-before-body")
         sh.record_case(case, nontrivial, labels=labels)
@@ -459,7 +506,10 @@ def run(sh):
     if done_all:
         sh.count("exhaustive_subspaces_completed")
 
-    # histories
+    run_histories(sh, sh.budget(64, 1200), "hist2")
+
+
+def run_histories(sh, budget, tag):
     op = st.fixed_dictionaries(dict(
         kind=st.sampled_from(HIST_KINDS),
         x=st.integers(min_value=0, max_value=2),
@@ -478,4 +528,4 @@ def run(sh):
         sh.count("history_executions", info.get("execs", 0))
         sh.handle(case, recs, raise_unattributed=True)
 
-    sh.given(strat, body, sh.budget(96, 1600), tag="hist")
+    sh.given(strat, body, budget, tag=tag)
